@@ -71,6 +71,14 @@ public:
 
     ~XalanArrayAllocator()
     {        
+        // (empty() does not create the head node of a list that has
+        // never been used, which begin() would; a destructor must not
+        // allocate memory.)
+        if (m_list.empty() == true)
+        {
+            return;
+        }
+
         typename ListType::iterator iter = m_list.begin();
 
         MemoryManager& theManager = m_list.getMemoryManager();
